@@ -69,7 +69,10 @@ fn pick_edit(p: &crate::gen::sem::Program, class: &str, pick: usize) -> Option<E
             Some(ident_edit(o, "UndefinedMulticlass".into(), "multiclass name replaced by an undeclared one".into()))
         }
         "undefined-identifier" => {
-            let c = uses_of(&[DeclKind::Defvar, DeclKind::ForeachVar, DeclKind::BangVar, DeclKind::TemplateArg, DeclKind::Field, DeclKind::Def, DeclKind::Defset]);
+            let mut c = uses_of(&[DeclKind::Defvar, DeclKind::ForeachVar, DeclKind::BangVar, DeclKind::TemplateArg, DeclKind::Field, DeclKind::Def, DeclKind::Defset]);
+            // (not inside the name of a def: there an identifier that denotes nothing stands for itself,
+            // `def R#undefined_name` is a record called Rundefined_name)
+            c.retain(|o| !p.spans.iter().any(|sp| sp.2 == "iterator-in-def-name" && sp.0 == o.file && sp.1 .0 <= o.range.0 && o.range.1 <= sp.1 .1));
             let o = c.get(pick % c.len().max(1))?;
             Some(ident_edit(o, "undefined_name".into(), "identifier in a value replaced by an undeclared one".into()))
         }
